@@ -12,6 +12,7 @@ import (
 	"go/format"
 	"go/parser"
 	"go/token"
+	"go/types"
 	"os"
 	"path/filepath"
 	"sort"
@@ -57,6 +58,19 @@ func Run(repo, outDir string, extra map[string]string) (*Result, error) {
 		if err != nil {
 			return nil, err
 		}
+		var srcs []string
+		for _, e := range ents {
+			name := e.Name()
+			if e.IsDir() || !strings.HasSuffix(name, ".go") || strings.HasSuffix(name, "_test.go") {
+				continue
+			}
+			src := filepath.Join(dir, name)
+			if alt, ok := extra[src]; ok {
+				src = alt
+			}
+			srcs = append(srcs, src)
+		}
+		findMapRanges(srcs)
 		for _, e := range ents {
 			name := e.Name()
 			if e.IsDir() || !strings.HasSuffix(name, ".go") || strings.HasSuffix(name, "_test.go") {
@@ -99,7 +113,68 @@ type rw struct {
 	n         int
 	needVchan bool
 	needVrt   bool
+	needVmap  bool
+	mapSites  map[[2]int]bool // (line, column) of range statements over maps in this file
 	st        stats
+}
+
+// mapRangeSites: file -> positions of `for … range m` statements whose operand is a map with an
+// ordered key type. Filled per package by findMapRanges (which needs the whole package to resolve
+// field types), consumed by File.
+var mapRangeSites = map[string]map[[2]int]bool{}
+
+type tolerantImporter struct{}
+
+func (tolerantImporter) Import(path string) (*types.Package, error) {
+	p := types.NewPackage(path, path[strings.LastIndex(path, "/")+1:])
+	p.MarkComplete()
+	return p, nil
+}
+
+// Prepare analyses the files of one package (all of them together) before File is called on each.
+func Prepare(paths []string) { findMapRanges(paths) }
+
+// findMapRanges type-checks one package's files just far enough to know which range statements
+// iterate over maps. Imports resolve to empty packages and every error is ignored: the types of the
+// package's own struct fields, parameters and locals — all a range operand needs — still resolve.
+func findMapRanges(paths []string) {
+	fset := token.NewFileSet()
+	var files []*ast.File
+	for _, p := range paths {
+		f, err := parser.ParseFile(fset, p, nil, 0)
+		if err != nil {
+			return
+		}
+		files = append(files, f)
+	}
+	info := &types.Info{Types: map[ast.Expr]types.TypeAndValue{}}
+	conf := types.Config{Importer: tolerantImporter{}, Error: func(error) {}, DisableUnusedImportCheck: true}
+	conf.Check("p", fset, files, info)
+	for _, f := range files {
+		ast.Inspect(f, func(n ast.Node) bool {
+			rs, ok := n.(*ast.RangeStmt)
+			if !ok {
+				return true
+			}
+			tv, ok := info.Types[rs.X]
+			if !ok || tv.Type == nil {
+				return true
+			}
+			m, ok := tv.Type.Underlying().(*types.Map)
+			if !ok {
+				return true
+			}
+			if b, ok := m.Key().Underlying().(*types.Basic); !ok || b.Info()&types.IsOrdered == 0 {
+				return true
+			}
+			pos := fset.Position(rs.For)
+			if mapRangeSites[pos.Filename] == nil {
+				mapRangeSites[pos.Filename] = map[[2]int]bool{}
+			}
+			mapRangeSites[pos.Filename][[2]int{pos.Line, pos.Column}] = true
+			return true
+		})
+	}
 }
 
 // File rewrites one source file and returns the new contents.
@@ -109,7 +184,7 @@ func File(path string) ([]byte, stats, error) {
 	if err != nil {
 		return nil, stats{}, err
 	}
-	r := &rw{fset: fset}
+	r := &rw{fset: fset, mapSites: mapRangeSites[path]}
 	// 1. imports
 	for _, im := range f.Imports {
 		p, _ := strconv.Unquote(im.Path.Value)
@@ -130,6 +205,9 @@ func File(path string) ([]byte, stats, error) {
 	}
 	if r.needVrt {
 		addImport(f, "vrt", "verif/vrt")
+	}
+	if r.needVmap {
+		addImport(f, "vmap", "verif/vrt/vmap")
 	}
 	f.Comments = nil
 	stripDocs(f)
@@ -429,6 +507,9 @@ func (r *rw) stmt(s ast.Stmt) []ast.Stmt {
 		if ss, ok := x.Stmt.(*ast.SelectStmt); ok {
 			return r.selectStmt(ss, x)
 		}
+		if rs, ok := x.Stmt.(*ast.RangeStmt); ok {
+			return r.rangeStmt(rs, x)
+		}
 		x.Stmt = r.one(x.Stmt)
 		return []ast.Stmt{x}
 	case *ast.ExprStmt:
@@ -466,9 +547,7 @@ func (r *rw) stmt(s ast.Stmt) []ast.Stmt {
 		r.block(x.Body)
 		return []ast.Stmt{x}
 	case *ast.RangeStmt:
-		x.Key, x.Value, x.X = r.expr(x.Key), r.expr(x.Value), r.expr(x.X)
-		r.block(x.Body)
-		return []ast.Stmt{x}
+		return r.rangeStmt(x, nil)
 	case *ast.SwitchStmt:
 		x.Init = r.one(x.Init)
 		x.Tag = r.expr(x.Tag)
@@ -494,6 +573,52 @@ func (r *rw) stmt(s ast.Stmt) []ast.Stmt {
 		return []ast.Stmt{x}
 	}
 	return []ast.Stmt{s}
+}
+
+// rangeStmt rewrites a range statement. Over a map with an ordered key type (see findMapRanges)
+//
+//	for k, v := range m { body }
+//
+// becomes an iteration in ascending key order that keeps Go's guarantee about entries deleted
+// during the loop:
+//
+//	{ _m := m; for _, k := range vmap.SortedKeys(_m) { v, _ok := _m[k]; if !_ok { continue }; body } }
+func (r *rw) rangeStmt(x *ast.RangeStmt, label *ast.LabeledStmt) []ast.Stmt {
+	pos := r.fset.Position(x.For)
+	isMap := r.mapSites[[2]int{pos.Line, pos.Column}] && (x.Tok == token.DEFINE || (x.Key == nil && x.Value == nil))
+	x.Key, x.Value, x.X = r.expr(x.Key), r.expr(x.Value), r.expr(x.X)
+	r.block(x.Body)
+	wrap := func(s ast.Stmt) ast.Stmt {
+		if label != nil {
+			label.Stmt = s
+			return label
+		}
+		return s
+	}
+	if !isMap {
+		return []ast.Stmt{wrap(x)}
+	}
+	r.needVmap = true
+	blank := func(e ast.Expr) bool {
+		id, ok := e.(*ast.Ident)
+		return e == nil || (ok && id.Name == "_")
+	}
+	m := ast.NewIdent(r.tmp("m"))
+	okv := ast.NewIdent(r.tmp("ok"))
+	var key ast.Expr = ast.NewIdent(r.tmp("k"))
+	if !blank(x.Key) {
+		key = x.Key
+	}
+	var val ast.Expr = ast.NewIdent("_")
+	if !blank(x.Value) {
+		val = x.Value
+	}
+	lookup := &ast.AssignStmt{Lhs: []ast.Expr{val, okv}, Tok: token.DEFINE, Rhs: []ast.Expr{&ast.IndexExpr{X: m, Index: key}}}
+	skip := &ast.IfStmt{Cond: &ast.UnaryExpr{Op: token.NOT, X: okv}, Body: &ast.BlockStmt{List: []ast.Stmt{&ast.BranchStmt{Tok: token.CONTINUE}}}}
+	body := &ast.BlockStmt{List: append([]ast.Stmt{lookup, skip}, x.Body.List...)}
+	loop := &ast.RangeStmt{Key: ast.NewIdent("_"), Value: key, Tok: token.DEFINE, X: call(sel("vmap", "SortedKeys"), m), Body: body}
+	bind := &ast.AssignStmt{Lhs: []ast.Expr{m}, Tok: token.DEFINE, Rhs: []ast.Expr{x.X}}
+	return []ast.Stmt{&ast.BlockStmt{List: []ast.Stmt{bind, wrap(loop)}}}
 }
 
 // selectStmt turns a select into case-variable declarations followed by a switch on
